@@ -136,7 +136,16 @@ func buildEngine(engine string, race bool) (string, error) {
 		return "", err
 	}
 	mod := strings.Replace(string(modBase), "=> /repo", "=> "+repoRoot, 1)
-	h := sha256.Sum256([]byte(repoRoot + "|" + simDir))
+	gobin := goBin()
+	tcTag := ""
+	if oldGoEngines[engine] {
+		// Engine built with the repository's own toolchain (no synctest): the
+		// code under test then runs exactly as shipped (e.g. crypto.Sign, which
+		// newer crypto/ecdsa rejects because it leaves the public key unset).
+		gobin, tcTag = "go", "-oldgo"
+		mod = "module verif/sim\n\ngo 1.20\n\nrequire github.com/elastos/Elastos.ELA v0.0.0\n\nreplace github.com/elastos/Elastos.ELA => " + repoRoot + "\n"
+	}
+	h := sha256.Sum256([]byte(repoRoot + "|" + simDir + tcTag))
 	modPath := filepath.Join(binDir, "sim-"+hex.EncodeToString(h[:4])+".mod")
 	if err := os.WriteFile(modPath, []byte(mod), 0644); err != nil {
 		return "", err
@@ -145,7 +154,7 @@ func buildEngine(engine string, race bool) (string, error) {
 	extra, _ := os.ReadFile(filepath.Join(simDir, "go.sum"))
 	os.WriteFile(strings.TrimSuffix(modPath, ".mod")+".sum", append(append(sum, '\n'), extra...), 0644)
 	args = append(args, "-modfile="+modPath, "-o", out, "./engines/"+engine)
-	cmd := exec.Command(goBin(), args...)
+	cmd := exec.Command(gobin, args...)
 	cmd.Dir = simDir
 	cmd.Env = goEnv()
 	var buf bytes.Buffer
@@ -175,6 +184,11 @@ type workerResult struct {
 }
 
 func runWorker(bin string, req *core.Request, tmp string, tag string, timeout time.Duration, gomaxprocs int) workerResult {
+	for _, k := range loadKnown() {
+		if k.Status == "known" {
+			req.Known = append(req.Known, k.Property+"|"+k.Signature)
+		}
+	}
 	reqPath := filepath.Join(tmp, "req-"+tag+".json")
 	req.Out = filepath.Join(tmp, "out-"+tag+".jsonl")
 	b, _ := json.Marshal(req)
@@ -243,6 +257,28 @@ type agg struct {
 	notes                           map[string]int
 	wallMs                          float64
 }
+
+// unknownViolations counts distinct violation signatures that are not listed
+// known findings.
+func (a *agg) unknownViolations(prop string) int {
+	n := 0
+	for sig := range a.viol {
+		if !knownSet[prop+"|"+sig] {
+			n++
+		}
+	}
+	return n
+}
+
+var knownSet = func() map[string]bool {
+	m := map[string]bool{}
+	for _, k := range loadKnown() {
+		if k.Status == "known" {
+			m[k.Property+"|"+k.Signature] = true
+		}
+	}
+	return m
+}()
 
 type violRec struct {
 	v     core.Violation
@@ -400,7 +436,7 @@ func runCheck(id, tier string) int {
 			defer wg.Done()
 			for bn := 0; ; bn++ {
 				mu.Lock()
-				if next >= b.Runs || time.Now().After(deadline) || len(harnessErr) > 0 || len(a.viol) >= 6 {
+				if next >= b.Runs || time.Now().After(deadline) || len(harnessErr) > 0 || a.unknownViolations(id) >= 6 {
 					mu.Unlock()
 					return
 				}
@@ -624,6 +660,7 @@ func replay(path string) int {
 	}
 	o := r.recs[0].Outcome
 	if os.Getenv("VERIF_SHOWLOG") != "" {
+		fmt.Print(r.log)
 		for _, l := range o.Log {
 			fmt.Println(l)
 		}
